@@ -922,7 +922,7 @@ func (c *c15) step(st c15Step) error {
 			c.r.Count("replenishes_refused_unchanged", 1)
 		}
 	}
-	if st.Shape != "" {
+	if st.Shape != "" && (st.Op == "repl-acc" || st.Op == "repl-pool") {
 		c.r.Count("replenish_repeat_shape_"+st.Shape, 1)
 		c.r.Distinct("repl-shape:" + st.Op + ":" + st.Shape)
 		if res.err == nil {
@@ -1651,6 +1651,162 @@ func (c *c15) runRepeatedReplenish() error {
 	return nil
 }
 
+// runUnknownPoolBatches: attach batches refused because ONE entry names a pool
+// that was never funded (no signature is wrong), the unknown pool at every
+// position. The refusal is atomic: no account named in the batch can afterwards
+// pay from the existing pools it was to be attached to, whose balances stay
+// put. Detach batches with a link that does not exist are applied (idempotent).
+func (c *c15) runUnknownPoolBatches() error {
+	read, write := c.debitOps()[0], c.debitOps()[3]
+	cost := c.costOf(write)
+	minus, plus := -1, 1
+	positions := map[int]string{0: "first", 1: "middle", 2: "last"}
+	for rep := 0; rep < 2; rep++ {
+		for pos := 0; pos < 3; pos++ {
+			a0 := len(c.accKeys) // three accounts with zero balance
+			c.acct(a0 + 2)
+			p0 := len(c.poolKeys) // two funded pools and one that never gets funded
+			c.pool(p0 + 2)
+			if err := c.step(c15Step{Op: "repl-pool", Pool: []int{p0, p0 + 1}, Amounts: []string{hs(cost.Mul64(3))}}); err != nil {
+				return err
+			}
+			unknown := p0 + 2
+			accs := []int{a0, a0 + 1, a0 + 2}
+			var pools []int
+			switch pos {
+			case 0:
+				pools = []int{unknown, p0, p0 + 1}
+			case 1:
+				pools = []int{p0, unknown, p0 + 1}
+			default:
+				pools = []int{p0, p0 + 1, unknown}
+			}
+			if rep == 1 {
+				accs = []int{a0, a0, a0 + 1} // one account to be attached to two pools
+			}
+			if err := c.step(c15Step{Op: "attach", Acc: accs, Pool: pools, Shape: "unknown-pool-" + positions[pos]}); err != nil {
+				return err
+			}
+			c.r.Count("attach_batches_refused_for_unknown_pool_"+positions[pos], 1)
+			// every account named in the refused batch: no paid RPC from the pools
+			for _, a := range dedupeInts(accs) {
+				for _, op := range []c15Step{write, read} {
+					st := op
+					st.Acc, st.Tune = []int{a}, &minus
+					if err := c.step(st); err != nil {
+						return err
+					}
+				}
+			}
+			// the well-formed batch over the existing pools is honoured
+			if err := c.step(c15Step{Op: "attach", Acc: []int{a0, a0 + 1}, Pool: []int{p0, p0 + 1}}); err != nil {
+				return err
+			}
+			st := read
+			st.Acc, st.Tune = []int{a0}, &plus
+			if err := c.step(st); err != nil {
+				return err
+			}
+			// a detach batch with a link that does not exist, at this position
+			dacc, dpool := []int{a0, a0 + 1, a0 + 2}, []int{p0, p0 + 1, p0}
+			dacc[pos], dpool[pos] = a0+2, p0+1 // (a0+2, p0+1) was never attached
+			if pos == 2 {
+				dacc, dpool = []int{a0, a0 + 1, a0 + 2}, []int{p0, p0 + 1, p0 + 1}
+			}
+			if err := c.step(c15Step{Op: "detach", Acc: dacc, Pool: dpool, Signer: "pool", Shape: "unknown-link-" + positions[pos]}); err != nil {
+				return err
+			}
+			c.r.Count("detach_batches_with_unknown_link_"+positions[pos], 1)
+			for _, a := range []int{a0, a0 + 1, a0 + 2} {
+				st := read
+				tune := -1
+				if len(c.led.att[c.acct(a)]) > 0 {
+					tune = 1
+				}
+				st.Acc, st.Tune = []int{a}, &tune
+				if err := c.step(st); err != nil {
+					return err
+				}
+			}
+		}
+	}
+	return nil
+}
+
+func dedupeInts(v []int) []int {
+	var out []int
+	for _, x := range v {
+		if !slices.Contains(out, x) {
+			out = append(out, x)
+		}
+	}
+	return out
+}
+
+// runNonRevisableFund: RPCFundAccounts through a contract that can no longer
+// be revised on chain - already renewed, or past its proof height - must be
+// refused and credit nothing: a credit is matched by a revision of a contract
+// that could still be confirmed.
+func (c *c15) runNonRevisableFund() error {
+	hostAddr := c.lab.Settings.RHP4Settings().WalletAddress
+	// (a) renewed
+	if err := c.formContract(types.Siacoins(300), types.Siacoins(100), 500); err != nil {
+		return err
+	}
+	c.contracts = append(c.contracts, c.contract)
+	ir := len(c.contracts) - 1
+	a := len(c.accKeys)
+	c.acct(a)
+	if err := c.step(c15Step{Op: "fund", Contract: ir, Acc: []int{a}, Amounts: []string{"1000"}}); err != nil {
+		return err
+	}
+	hs0, err := c.lab.State(c.contracts[ir].ID)
+	if err != nil {
+		return inconclusive("contract state: %v", err)
+	}
+	if _, err := rhp.RPCRenewContract(ctxBG(), c.cl, c.lab.CM, c.lab.Signer(), c.cs, c.prices, hostAddr, hs0.Revision, proto4.RPCRenewContractParams{ContractID: c.contracts[ir].ID, Allowance: types.Siacoins(200), Collateral: types.Siacoins(100), ProofHeight: hs0.Revision.ProofHeight + 100}); err != nil {
+		return inconclusive("renew: %v", err)
+	}
+	if err := c.quiesce(); err != nil {
+		return err
+	}
+	if err := c.lab.Mine(types.VoidAddress, 1); err != nil {
+		return inconclusive("mine: %v", err)
+	}
+	c.aud.audit()
+	c.lab.Log.Trim(c.aud.seq)
+	for i := 0; i < 3; i++ {
+		if err := c.step(c15Step{Op: []string{"fund", "repl-acc", "repl-pool"}[i], Contract: ir, Acc: []int{a}, Pool: []int{len(c.poolKeys)}, Amounts: []string{"777777"}, Bad: "contract-renewed"}); err != nil {
+			return err
+		}
+		c.r.Count("funding_through_renewed_contract", 1)
+	}
+	// (b) past the proof height
+	if err := c.formContract(types.Siacoins(300), types.Siacoins(100), 20); err != nil {
+		return err
+	}
+	c.contracts = append(c.contracts, c.contract)
+	ie := len(c.contracts) - 1
+	if err := c.step(c15Step{Op: "fund", Contract: ie, Acc: []int{a}, Amounts: []string{"1000"}}); err != nil {
+		return err
+	}
+	ph := c.contract.Revision.ProofHeight
+	for _, h := range []uint64{ph, ph + 1, ph + 150} {
+		if tip := c.lab.CM.Tip().Height; h > tip {
+			if err := c.lab.Mine(types.VoidAddress, int(h-tip)); err != nil {
+				return inconclusive("mine: %v", err)
+			}
+		}
+		for i := 0; i < 3; i++ {
+			if err := c.step(c15Step{Op: []string{"fund", "repl-acc", "repl-pool"}[i], Contract: ie, Acc: []int{a}, Pool: []int{len(c.poolKeys)}, Amounts: []string{"777777"}, Bad: "contract-past-proof-height"}); err != nil {
+				return err
+			}
+			c.r.Count("funding_through_expired_contract", 1)
+		}
+	}
+	return nil
+}
+
 func (c *c15) runRandom(n int) error {
 	// population: 4 accounts, 3 pools, funded and partly attached
 	a0, p0 := len(c.accKeys), len(c.poolKeys)
@@ -1763,6 +1919,11 @@ func runC15(r *mon.Run, replay string) {
 	r.Floor("debit_store_faults", 8)
 	r.Floor("contention_rounds_exact", 200)
 	r.Floor("settings_changes", 20)
+	r.Floor("attach_batches_refused_for_unknown_pool_first", 4)
+	r.Floor("attach_batches_refused_for_unknown_pool_middle", 4)
+	r.Floor("attach_batches_refused_for_unknown_pool_last", 4)
+	r.Floor("funding_through_renewed_contract", 3)
+	r.Floor("funding_through_expired_contract", 9)
 	r.Floor("replenish_repeat_shape_ABA", 4)
 	r.Floor("replenish_repeat_shape_ABCA", 4)
 	r.Floor("replenish_repeat_shape_AA", 4)
@@ -1803,6 +1964,11 @@ func runC15(r *mon.Run, replay string) {
 						return err
 					}
 				}
+				if w < 2 {
+					if err := c.runUnknownPoolBatches(); err != nil {
+						return err
+					}
+				}
 				if w%2 == 0 {
 					if err := c.runForgedBatches(); err != nil {
 						return err
@@ -1813,7 +1979,14 @@ func runC15(r *mon.Run, replay string) {
 						return err
 					}
 				}
-				return c.runRandom(r.Pick(250, 1500))
+				if err := c.runRandom(r.Pick(250, 1500)); err != nil {
+					return err
+				}
+				if w == 3 {
+					// last: it advances the chain past a proof height
+					return c.runNonRevisableFund()
+				}
+				return nil
 			})
 		}(w)
 	}
